@@ -225,6 +225,11 @@ mod sym_impls {
             }
         }
     }
+    impl Sym for DB {
+        fn sym(_b: usize) -> Self {
+            DB { blk: kani::any() }
+        }
+    }
     impl Sym for D1 {
         fn sym(b: usize) -> Self {
             D1 {
